@@ -2661,3 +2661,16 @@ twin('C11', 'abort-forgets-import-unconditionally', CONNPY,
 ''',
      '''        self._import = None
 ''')
+
+# ---- F68 -------------------------------------------------------------------
+breaker('C20', 'ds-newoid-ignores-stored-oids', 'C20.R6', DSPY,
+        'DemoStorage.new_oid',
+        '''                if oid not in self._issued_oids and \\
+                        oid not in self._stored_oids:''',
+        '''                if oid not in self._issued_oids:''')
+twin('C20', 'ds-newoid-two-tests', DSPY, 'DemoStorage.new_oid',
+     '''                if oid not in self._issued_oids and \\
+                        oid not in self._stored_oids:''',
+     '''                if oid in self._stored_oids:
+                    pass
+                elif oid not in self._issued_oids:''')
